@@ -44,7 +44,13 @@ def inputs(wd, tier):
         rest = [q for q in it["qs"] if q[4] < 2]
         qs = deep + qrng.sample(rest, 1 if tier == "quick" else 6)
         p5items.append(dict(it, qs=qs))
-    return items + r5items + p5items, [g3, g4, r5, p5]
+    # every identifiable 4-node query with another recursive step inside a sub-problem that line 7 created (DeepAfter7)
+    deep4 = []
+    for it in ic.with_gids(g4["items"], "A4d-"):
+        deep = [q for q in it["qs"] if q[3] and q[5]]
+        if deep:
+            deep4.append(dict(it, qs=deep))
+    return items + r5items + p5items + deep4, [g3, g4, r5, p5]
 
 
 def run(tier: str) -> int:
@@ -52,7 +58,7 @@ def run(tier: str) -> int:
     wd = workdir(PID)
     mcs = [ic.mc(wd, "A3", "id")[0]]
     items, gens = inputs(wd, tier)
-    groups = ic.run_y0(wd, items, 2 if tier == "quick" else 3, True, "c01")
+    groups = ic.run_y0(wd, items, 3, True, "c01")   # sorted insertion, permuted names + shuffled insertion, history
     kw = {}
     vs, st, by_id = ic.judge(wd, groups, seeds=(1, 2) if tier == "quick" else (1, 2, 3), **kw)
     extra = {}
